@@ -54,4 +54,34 @@ theorem load_reported_success_over_nothing_before_the_fix :
       (LoadExample.fetchN LoadExample.chain4 (-1)) (-1)) = .ok [1, 2, 3, 4] := by
   decide
 
+/-- the cached heads that came back from the fetcher -/
+def Store.headsBack (s : Store) (fetch : Nat → OMap) : Store :=
+  { s with localHeads := s.localHeads.map (List.filter fun h => has (fetch h) h),
+           remoteHeads := s.remoteHeads.map (List.filter fun h => has (fetch h) h) }
+
+/-- **a Load that failed leaves what the other heads led to readable**: the log is the log of the load
+over the heads that came back, the view is the replay of exactly that log, the cache is untouched -
+for every store, fetcher and amount. -/
+theorem loadReadable_spec (acl : Acl) (s t : Store) (fetch : Nat → OMap) (amount : Int)
+    (h : (s.headsBack fetch).load acl fetch amount = .ok t) :
+    (s.loadReadable acl fetch amount).log = t.log ∧
+    (s.loadReadable acl fetch amount).idx = updateIndex s.kind s.idx t.log ∧
+    (s.loadReadable acl fetch amount).localHeads = s.localHeads ∧
+    (s.loadReadable acl fetch amount).remoteHeads = s.remoteHeads := by
+  unfold Store.headsBack at h
+  unfold Store.loadReadable
+  simp [h]
+
+/-- two cached heads, the block of one is gone - the log holds what the other
+led to and it is listed (`loadChecked` alone says
+nothing about the state) -/
+theorem failed_load_lists_what_came_back :
+    let s := LoadExample.fresh 4
+    let fetch := LoadExample.fetchN LoadExample.chain4 (-1)
+    let s2 : Store := { s with remoteHeads := some [99] }
+    LoadExample.listing (s2.loadChecked LoadExample.acl fetch (-1)) = .error .notFound ∧
+    LoadExample.listing (.ok (s2.loadReadable LoadExample.acl fetch (-1))) = .ok [1, 2, 3, 4] := by
+  intro s fetch s2
+  decide
+
 end Orbit
